@@ -22,6 +22,12 @@ func checkC01(c *Ctx) {
 	ruleQuotedValidated(c, "C01.b")
 	ruleThresholdAgreement(c, "C01.c")
 	ruleOpenLiteralTypestate(c, "C01.d")
+	c.rule("C01.e", "list nesting accounting: the depth counter of Decoder.List is capped and balanced", 2)
+	if list := c.P.Func("internal/imapwire", "Decoder", "List"); list != nil {
+		checkListGuard(c, "C01.e", list)
+	} else {
+		c.unresolvedRoot("(*Decoder).List")
+	}
 }
 
 func ruleRefuseUnrepresentable(c *Ctx, rule string) {
